@@ -141,6 +141,8 @@ def op_line(info, opid):
                 return l.strip()
     return ""
 
+    from vlib import probes
+    probes.run(rep, "C06")
 
 def replay(rep, path):
     r = json.load(open(path))
